@@ -481,6 +481,12 @@ def run_plans(run, comp, plans, timeout=3000, reset_key="op", reset_val="Reset")
     return segs
 
 
+def drop_crashed(plans, segs):
+    """(plans, segments) without the plans during which the process died (those are already recorded as NoCrash rejections)."""
+    keep = [i for i, sg in enumerate(segs) if sg is not None]
+    return [plans[i] for i in keep], [segs[i] for i in keep]
+
+
 # ----------------------------------------------------------------------------
 # Trace validation
 # ----------------------------------------------------------------------------
